@@ -39,20 +39,21 @@ Local Open Scope Z_scope.
 
 (** * Defect switches (see /verif/fixes/C03_*.diff)
 
-    [true]: the model follows the code as it is now.  Once the patch is
-    committed to /repo the coordinator asks for the switch to [false]. *)
+    [true]: the model follows the code as it was before the fix; [false]: as
+    it is now.  Both fixes are committed in /repo, both switches are off. *)
 
-(* DEFECT C03_1: toDeleteNotification appends to the stored notification's
-   prefix slice; with spare capacity in a shared backing array all delete
-   notifications of one gnmiRemove alias it.  Becomes [false] (fresh slice,
-   every delete notification carries its own path) with
-   fixes/C03_1_delete_alias.diff. *)
-Definition defect_c03_1_alias : bool := true.
+(* DEFECT C03_1 (fixed by /repo 20c4a71, fixes/C03_1_delete_alias.diff):
+   toDeleteNotification appended to the stored notification's prefix slice;
+   with spare capacity in a shared backing array all delete notifications of
+   one gnmiRemove aliased it.  [false]: a fresh slice, every delete
+   notification carries its own path. *)
+Definition defect_c03_1_alias : bool := false.
 
-(* DEFECT C03_2: event-driven suppression compares [old.Update[0].Val] with the
-   new value even when [old] is an atomic container.  Becomes [false]
-   (suppression requires [!old.Atomic]) with fixes/C03_2_atomic_suppress.diff. *)
-Definition defect_c03_2_atomic_suppress : bool := true.
+(* DEFECT C03_2 (fixed by /repo 4775c12, fixes/C03_2_atomic_suppress.diff):
+   event-driven suppression compared [old.Update[0].Val] with the new value
+   even when [old] was an atomic container.  [false]: suppression requires
+   [!old.Atomic]. *)
+Definition defect_c03_2_atomic_suppress : bool := false.
 
 (** * Typed values (the subset described above) *)
 
@@ -398,8 +399,8 @@ Definition update_leaf (t1 : target) (now : Z) (p : path) (u : update) (n : noti
             match n_upd old with
             | [] => (t2, Panic panic_old_update)
             | uo :: _ =>
-                (* DEFECT C03_2: with the patch the test is additionally
-                   guarded by [negb (n_atomic old)] *)
+                (* DEFECT C03_2 (switch off): the test is guarded by
+                   [negb (n_atomic old)] *)
                 if (defect_c03_2_atomic_suppress || negb (n_atomic old))
                    && value_equal (u_val uo) (u_val u)
                    && cfg_event_driven (t_cfg t2)
@@ -514,7 +515,7 @@ Fixpoint render_deletes (removed : list notif) (ts : Z) : list notif :=
   match removed with
   | [] => []
   | d :: rest =>
-      (* DEFECT C03_1: with the patch every entry is [mk_delete d ts (del_path d)] *)
+      (* DEFECT C03_1 (switch off): every entry is [mk_delete d ts (del_path d)] *)
       (match (if defect_c03_1_alias then alias_write d else None) with
        | Some (id, sfx) =>
            mk_delete d ts (GPath "" "" (gp_elems (gp_of_opt (n_prefix d)) ++ aliased_suffix id sfx rest) [])
